@@ -539,6 +539,36 @@ func faultOne(sc *faultScn, idx int) verdict {
 		}
 	}
 
+	// a caller that reconnects on error without closing first (one lost session in three): whatever the second Open and the
+	// operation after it report, nothing hangs and nothing panics - in the caller's goroutine or, later, in a library goroutine
+	// (the process runs one scenario at a time: its death is attributed to this scenario)
+	if sc.Fault != "stall" && class == "error" && !op.openIsOp && v.OK && (sc.K+len(sc.Op))%3 == 0 {
+		fin, pan = withWatchdog(12*time.Second, func() {
+			switch {
+			case s.nd != nil:
+				_ = s.nd.Open()
+			case s.gd != nil:
+				_ = s.gd.Open()
+			case s.nc != nil:
+				_ = s.nc.Open()
+			}
+
+			if op.next != nil {
+				_, _ = op.next(s)
+			}
+		})
+
+		switch {
+		case !fin:
+			fail(&v, "C06:"+sc.Op+":"+sc.Fault+":open-again-without-close:hangs", "Open (and one operation) on the driver that lost its connection did not return")
+		case pan != nil:
+			fail(&v, "C06:"+sc.Op+":"+sc.Fault+":open-again-without-close:panics", "Open (and one operation) on the driver that lost its connection panicked: %v", pan)
+		default:
+			s.close()
+			time.Sleep(15 * time.Millisecond)
+		}
+	}
+
 	return v
 }
 
